@@ -9,14 +9,18 @@ ID = "C26"
 LEVEL = "exploration"
 RULE = ("Each case = one whole simulated Pynguin run with type tracing ON (so return types observed at run time rewrite "
         "the generator map through update_return_type while the lru caches are warm), generator selection RANK or "
-        "RANDOM, on the class-hierarchy/container corpus modules. Every call of select_generator_for(T) on the live "
-        "provider is intercepted: the (cached) offered set must equal a from-scratch recomputation on the CURRENT "
-        "generator map and type graph (uncached is_maybe_subtype), every offered generator's return type may be a "
-        "subtype of T, and the other provider flavour (built on the same map, uncached) offers the same set. At the "
-        "end every (generated type, requested type) pair seen is re-queried through the cached TypeSystem methods "
-        "(is_subtype, is_maybe_subtype, subtype_distance, is_subclass) and compared with the uncached recomputation "
-        "on the final graph. Non-trivial = >= 1 update_return_type changed the map after the first query and >= 20 "
-        "selections followed; distinct = distinct run digest.")
+        "RANDOM, on corpus modules with class hierarchies, unions, fixed-size tuples, list/set/dict parameters and "
+        "unannotated functions. Every request for generators on the live cluster is intercepted and, around each of the "
+        "first 60 return-type updates of a run, a panel of all types a search may request (parameter types of every "
+        "callable, every generated type) is queried before the update (warming the caches) and again after it. For "
+        "each query: the cached offer must equal a from-scratch recomputation on the CURRENT generator map and type "
+        "graph; every offered generator must still be in the map; its return type must be accepted by is_maybe_subtype "
+        "AND by an independent reference relation (issubclass on the raw classes, one union member suffices, tuples "
+        "element-wise at equal length, invariant list/set/dict arguments, Any matches); is_maybe_subtype must not "
+        "accept a (generated type, requested type) pair the reference rejects; and the other provider flavour (same "
+        "map, uncached) must offer the same set. At the end every pair seen is re-queried through the cached TypeSystem "
+        "methods (is_subtype, is_maybe_subtype, subtype_distance) and compared with the uncached recomputation on the "
+        "final graph. Non-trivial = >= 1 update changed the map and >= 20 queries followed; distinct = distinct run digest.")
 ASSUMPTIONS = ["only update operations the running system performs (update_return_type via type tracing, to_type_info) "
                "are exercised; arbitrary graph edits are input generation"]
 REAL = ["ModuleTestCluster.update_return_type/_drop_generator", "GeneratorProvider / RandomGeneratorProvider and their "
@@ -27,10 +31,12 @@ MANIFEST = {
     "technique": "deterministic simulation of whole generator runs with run-time type-graph/generator-map updates; every "
                  "cached answer served to the search is compared with an uncached reference recomputation at the moment "
                  "it is served (history property: queries interleaved with updates)",
-    "text": "Seeded exploration of query/update histories that real runs produce; operation-level refinement check of "
-            "the cached provider answers, compatibility of every offered generator, equivalence of both providers, and "
-            "cached TypeSystem queries vs. recomputation on the final graph.",
-    "note": "Trusted: reference filter (uncached is_maybe_subtype over the current generator map).",
+    "text": "Seeded exploration of query/update histories that real runs produce (plus a panel of requestable types "
+            "queried around every update); operation-level refinement check of the cached provider answers, "
+            "compatibility of every offered generator against an independent reference relation, equivalence of both "
+            "providers, and cached TypeSystem queries vs. recomputation on the final graph.",
+    "note": "Trusted: the reference relation in this file (Python issubclass on raw classes + union/tuple/invariant "
+            "container rules); uncached recomputation through __wrapped__.",
     "ref": "DESIGN.md §3 C26",
 }
 BUDGET = {
@@ -43,7 +49,7 @@ _ALGOS = ["DYNAMOSA", "MOSA", "WHOLE_SUITE", "RANDOM"]
 def gen_case(run_seed: int, tier: str) -> dict:
     st = Streams(run_seed)
     r, k, f = st.get("ops"), st.get("knobs"), st.get("faults")
-    case = gen_base_case(run_seed, r, k, algorithms=_ALGOS, modules=["zoo", "shapes", "zoo", "words", "floats"])
+    case = gen_base_case(run_seed, r, k, algorithms=_ALGOS, modules=["zoo", "shapes", "typed", "typed", "words", "floats"])
     kn = case["knobs"]
     kn["iterations"] = k.choice([2, 4, 6])
     kn["assertions"] = "NONE"
@@ -53,16 +59,54 @@ def gen_case(run_seed: int, tier: str) -> dict:
     return case
 
 
+def ref_maybe_subtype(left, right) -> bool:
+    """Reference for 'left may be a subtype of right', independent of TypeSystem: class relations come from Python's
+    own issubclass on the raw classes; unions need one member, tuples match element-wise at equal length, the
+    hard-coded generics (list/set/dict) are invariant in their arguments, Any matches everything."""
+    from pynguin.analyses.typesystem import AnyType, Instance, NoneType, TupleType, UnionType
+
+    if isinstance(right, AnyType) or isinstance(left, AnyType):
+        return True
+    if isinstance(left, UnionType):
+        return any(ref_maybe_subtype(le, right) for le in left.items)
+    if isinstance(right, UnionType):
+        return any(ref_maybe_subtype(left, r) for r in right.items)
+    if isinstance(left, NoneType):
+        return isinstance(right, NoneType)
+    if isinstance(left, TupleType):
+        return (isinstance(right, TupleType) and len(left.args) == len(right.args)
+                and all(ref_maybe_subtype(a, b) for a, b in zip(left.args, right.args)))
+    if isinstance(left, Instance):
+        if not isinstance(right, Instance):
+            return False
+        lr, rr = left.type.raw_type, right.type.raw_type
+        try:
+            if not issubclass(lr, rr):
+                return False
+        except TypeError:
+            return False
+        n = left.type.num_hardcoded_generic_parameters
+        if n is not None and n == right.type.num_hardcoded_generic_parameters:
+            return all(ref_maybe_subtype(a, b) and ref_maybe_subtype(b, a) for a, b in zip(left.args, right.args))
+        return True
+    return False
+
+
 class GeneratorMonitor(Monitor):
     def __init__(self):
         self.selections = 0
         self.updates = 0
         self.selections_after_update = 0
         self.pairs = set()
+        self.panel_queries = 0
+        self.ref_pairs = 0
+        self.stricter_than_reference = 0
+        self.panel_budget = 60  # updates per run around which the whole panel is queried
 
     def on_setup(self, run):
         import pynguin.analyses.generator as gp
         from pynguin.analyses.typesystem import AnyType
+        from pynguin.utils.orderedset import OrderedSet
 
         mon = self
         cluster = run.cluster
@@ -80,12 +124,33 @@ class GeneratorMonitor(Monitor):
 
         orig_urt = type(base).update_return_type
 
+        def panel():
+            """Types the search may request: parameter types of every callable in the cluster and every generated type."""
+            types = OrderedSet(provider.get_all().keys())
+            for gens in list(provider.get_all().values()):
+                for g in gens:
+                    sig = getattr(g, "inferred_signature", None)
+                    if sig is not None:
+                        for t in sig.original_parameters.values():
+                            types.add(t)
+            return [t for t in types if not isinstance(t, AnyType)]
+
         def urt(self_c, accessible, new_type):
             before = accessible.inferred_signature.return_type
+            if self_c is base and mon.panel_budget > 0:
+                # the queries a search could have made before this update (they warm the caches; answers are checked)
+                for t in panel():
+                    sel(provider, t, live=False)
             orig_urt(self_c, accessible, new_type)
             if accessible.inferred_signature.return_type != before:
                 mon.updates += 1
                 run.hist.add("urt", str(accessible), str(accessible.inferred_signature.return_type))
+                if self_c is base and mon.panel_budget > 0:
+                    mon.panel_budget -= 1
+                    for t in panel():
+                        sel(provider, t, live=False)
+                        if run.violation:
+                            break
 
         run.patch(type(base), "update_return_type", urt)
         # In this code base the test factory asks the cluster (exact-type lookup in the provider's map) and the
@@ -106,11 +171,16 @@ class GeneratorMonitor(Monitor):
 
         run.patch(type(base), "get_generators_for", ggf)
 
-        def sel(self_p, parameter_type):
+        def sel(self_p, parameter_type, live=True):
             chosen = None
-            mon.selections += 1
-            if mon.updates:
-                mon.selections_after_update += 1
+            if run.violation:
+                return chosen
+            if live:
+                mon.selections += 1
+                if mon.updates:
+                    mon.selections_after_update += 1
+            else:
+                mon.panel_queries += 1
             offered = {g.generator for g in self_p._get_generators_for(parameter_type)}
             is_any = isinstance(parameter_type, AnyType)
             all_gens = {g for gens in self_p.get_all().values() for g in gens}
@@ -132,10 +202,23 @@ class GeneratorMonitor(Monitor):
                     return chosen
                 for g in offered:
                     rt = g.generated_type()
-                    if not maybe(ts, rt, parameter_type):
-                        run.violate("incompatible-generator-offered",
-                                    f"{parameter_type}: generator {g} returns {rt} which cannot be a subtype")
+                    if not maybe(ts, rt, parameter_type) or not ref_maybe_subtype(rt, parameter_type):
+                        run.violate(f"incompatible-generator-offered:{type(rt).__name__}->{type(parameter_type).__name__}",
+                                    f"{parameter_type}: generator {g} returns {rt} which cannot be a subtype "
+                                    f"(type system says {maybe(ts, rt, parameter_type)}, reference says "
+                                    f"{ref_maybe_subtype(rt, parameter_type)})")
                         return chosen
+                for gen_type in self_p.get_all():
+                    mon.ref_pairs += 1
+                    a, b = type(ts).is_maybe_subtype(ts, gen_type, parameter_type), ref_maybe_subtype(gen_type, parameter_type)
+                    if a and not b:
+                        # the relation that decides what is offered accepts a type that cannot be a subtype
+                        run.violate(f"maybe-subtype-accepts-incompatible:{type(gen_type).__name__}->{type(parameter_type).__name__}",
+                                    f"is_maybe_subtype({gen_type}, {parameter_type}) is True, reference (issubclass on the raw "
+                                    f"classes, one union member suffices, tuples element-wise, invariant list/set/dict) says no")
+                        return chosen
+                    if b and not a:
+                        mon.stricter_than_reference += 1  # fewer offers than possible: not what the property forbids
                 other_offer = {g.generator for g in other_cls._get_generators_for.__wrapped__(other, parameter_type)}
                 if other_offer != offered:
                     run.violate(f"providers-differ:{type(parameter_type).__name__}",
@@ -173,9 +256,11 @@ class GeneratorMonitor(Monitor):
 def run_case(case: dict) -> dict:
     mon = GeneratorMonitor()
     run, res = run_pipeline(case, [mon])
-    res["nontrivial"] = mon.updates >= 1 and mon.selections_after_update >= 20
+    res["nontrivial"] = mon.updates >= 1 and (mon.selections_after_update >= 20 or mon.panel_queries >= 20)
     res["probes"].update(generator_selections=mon.selections, return_type_updates=mon.updates,
-                         selections_after_first_update=mon.selections_after_update, type_pairs_rechecked=len(mon.pairs))
+                         selections_after_first_update=mon.selections_after_update, type_pairs_rechecked=len(mon.pairs),
+                         panel_queries_around_updates=mon.panel_queries, pairs_compared_with_reference=mon.ref_pairs,
+                         pairs_where_type_system_is_stricter_than_reference=mon.stricter_than_reference)
     res["faults"]["runtime_generator_map_update"] = mon.updates
     if case["run_seed"] % 11 == 0:
         res["sample"] = {"module": case["module"], "algorithm": case["algorithm"], "knobs": case["knobs"],
